@@ -43,9 +43,13 @@ Frontier(fixed) == {n \in ((AUTHENTICATOR_DATA_LENGTH - fixed - 3)..(AUTHENTICAT
 IdLens(fixed) == IF Deep THEN 0..700 ELSE (0..8) \cup Frontier(fixed) \cup {255, 256, 300}
 HugeIds == {65534, 65535, 65536, 70000}
 
+\* (the sweep of EVERY id length in the thorough tier is done for three key shapes; the others get
+\* the frontier lengths in both tiers)
+PkBasic == {<< >>, Pk77, Pattern(101, 200)}
+IdLensFor(fixed, pk) == IF pk \in PkBasic THEN IdLens(fixed) ELSE (0..8) \cup Frontier(fixed) \cup {255, 256, 300}
 AcdCases ==
     UNION {{ADCase(In("mc", FLAG_UP + FLAG_AT, BN(7), <<Acd(a, n, pk)>>, GNone), "acd") :
-               n \in IdLens(37 + Len(a) + 2 + Len(pk)) \cup HugeIds} : a \in Aaguids, pk \in PkShapes}
+               n \in IdLensFor(37 + Len(a) + 2 + Len(pk), pk) \cup HugeIds} : a \in Aaguids, pk \in PkShapes}
     \cup UNION {{ADCase(In("mc", FLAG_UP + FLAG_UV + FLAG_AT + FLAG_ED, BN(9), <<Acd(Pattern(102, 16), n, Pk77)>>, <<e>>), "acd+ext") :
                n \in Frontier(37 + 16 + 2 + 77 + Len(EncTy(T_Struct("McExt"), e, F))) \cup {0, 16, 64}} : e \in McExtSubsets}
 
